@@ -42,6 +42,7 @@ static const char *const cr_name[NCARRIER] = { "VPS", "8/30-1", "8/30-2", "WSS",
 struct rx {
 	int carrier;
 	unsigned cni;                   /* CNI carriers */
+	unsigned clean_cni;             /* what the carrier sends when this reception is not a single deviation */
 	unsigned pil; int pcs, pty, lci, luf, prf, mi;
 	int lto; long mjd; int hh, mm, ss;
 	struct tx_wss wss; uint8_t word[2];
@@ -61,7 +62,9 @@ struct evrec {
 
 static struct rx rxs[MAXRX];
 static int n_rx;
-static struct evrec evs[MAXEV];
+static struct evrec evs_lib[MAXEV];       /* what the library did */
+static struct evrec evs_ref[MAXEV];       /* what the reference model does (attribution of known deviations only) */
+static struct evrec *evs = evs_lib;       /* the log the rules are looking at */
 static int n_ev, ev_overflow;
 static int cur_rx;
 static vbi_decoder *vbi;
@@ -179,7 +182,7 @@ static void handler(vbi_event *ev, void *ud)
 	(void)ud;
 	if (ev->type == VBI_EVENT_TTX_PAGE) { n_ttx_events++; return; }
 	if (n_ev >= MAXEV) { ev_overflow = 1; return; }
-	e = &evs[n_ev++];
+	e = &evs_lib[n_ev++];
 	memset(e, 0, sizeof *e);
 	e->rx = cur_rx; e->type = ev->type;
 	switch (ev->type) {
@@ -368,6 +371,33 @@ static int between_mask(int i)
 	return m;
 }
 
+/* Violations go through viol(): reported at once, or collected so that run_hist() can first try to
+ * attribute them to one of the named, recorded deviations of the library (see "reference model"). */
+struct vrec { char key[160]; int phase; char detail[900]; };
+#define MAXVIOL 48
+static struct vrec vlist[MAXVIOL];
+static int n_vlist, collecting, eval_only, viol_phase;
+
+static void viol(const char *key, const char *fmt, ...) __attribute__((format(printf, 2, 3)));
+static void viol(const char *key, const char *fmt, ...)
+{
+	char buf[900];
+	va_list ap;
+	va_start(ap, fmt);
+	vsnprintf(buf, sizeof buf, fmt, ap);
+	va_end(ap);
+	if (!collecting) { vf_fail(key, "%s", buf); return; }
+	if (n_vlist < MAXVIOL) {
+		struct vrec *v = &vlist[n_vlist++];
+		snprintf(v->key, sizeof v->key, "%s", key);
+		snprintf(v->detail, sizeof v->detail, "%s", buf);
+		v->phase = viol_phase;
+	}
+}
+/* evidence (counters, signatures) only for the library's own log */
+#define COUNT(name, k) do { if (!eval_only) vf_count(name, k); } while (0)
+#define SIG(...) do { if (!eval_only) vf_sig(__VA_ARGS__); } while (0)
+
 /* 0 every carrier names the same station of the table, 1 every carrier has a CNI that is not in the
  * table, 2 some carriers name the station, the others send no CNI (zero: "unknown or not applicable"),
  * 3 the carriers disagree (one names a station of the table, another has a CNI that is not in the table),
@@ -430,18 +460,20 @@ static void rules_R1_R2_R3(void)
 			if (rxs[i].carrier == CR_XCALL) { strcpy(last_call, rxs[i].str); if (rep) { strcpy(conf_call, rxs[i].str); call_zeroed = 0; } }
 		}
 		if (v->rx > upto) upto = v->rx;
+		viol_phase = -1;
 		if (v->rx < 0 || v->rx >= n_rx) {
-			vf_fail("model:C13:event-outside-reception", "event type 0x%x raised while no identification line was being decoded (probe page or idle frame)", v->type);
+			viol("model:C13:event-outside-reception", "event type 0x%x raised while no identification line was being decoded (probe page or idle frame)", v->type);
 			continue;
 		}
 		x = &rxs[v->rx];
+		viol_phase = x->phase;
 		switch (v->type) {
 		case VBI_EVENT_NETWORK:
 		case VBI_EVENT_NETWORK_ID: {
 			const vbi_network *n = &v->net;
 			const char *tn = v->type == VBI_EVENT_NETWORK ? "NETWORK" : "NETWORK_ID";
 			int blank = is_blank(n);
-			vf_count(v->type == VBI_EVENT_NETWORK ? (blank ? "ev_network_blank" : "ev_network") : (blank ? "ev_network_id_blank" : "ev_network_id"), 1);
+			COUNT(v->type == VBI_EVENT_NETWORK ? (blank ? "ev_network_blank" : "ev_network") : (blank ? "ev_network_id_blank" : "ev_network_id"), 1);
 			v->blank = blank;
 			if (blank) {
 				for (c = 0; c < 3; c++) { zeroed[c] = 1; conf_tx[c] = last_nz[c] = conf_nz[c] = 0; }
@@ -449,7 +481,7 @@ static void rules_R1_R2_R3(void)
 				break;
 			}
 			if (x->carrier == CR_WSS || x->carrier == CR_XCALL) {
-				vf_fail("model:C13:R1:network-event-from-unrelated-carrier", "%s event raised while decoding %s", tn, rx_str(v->rx));
+				viol("model:C13:R1:network-event-from-unrelated-carrier", "%s event raised while decoding %s", tn, rx_str(v->rx));
 				break;
 			}
 			if (x->carrier <= CR_8302) {
@@ -462,17 +494,17 @@ static void rules_R1_R2_R3(void)
 					if ((unsigned)got[c] == last_tx[c]) continue;
 					if (c != x->carrier && (unsigned)got[c] == conf_tx[c] && (conf_tx[c] || zeroed[c])) continue;
 					if (c != x->carrier && got[c] == 0 && zeroed[c]) continue;
-					vf_fail(c == x->carrier ? "model:C13:R1:announced-cni-differs" : "model:C13:R1:other-cni-differs",
+					viol(c == x->carrier ? "model:C13:R1:announced-cni-differs" : "model:C13:R1:other-cni-differs",
 						"%s event during %s carries cni[%s]=0x%04x, last transmitted on that carrier 0x%04x; event cni_vps=%04x cni_8301=%04x cni_8302=%04x nuid=%u name='%s'",
 						tn, rx_str(v->rx), cr_name[c], got[c], last_tx[c], n->cni_vps, n->cni_8301, n->cni_8302, n->nuid, n->name);
 				}
 				if (st) {
 					if (n->nuid == 0 || strncmp((const char *)n->name, st->name, 60))
-						vf_fail("model:C13:R1:station-name", "%s event during %s (table: id %d '%s') carries nuid=%u name='%s'", tn, rx_str(v->rx), st->id, st->name, n->nuid, n->name);
+						viol("model:C13:R1:station-name", "%s event during %s (table: id %d '%s') carries nuid=%u name='%s'", tn, rx_str(v->rx), st->id, st->name, n->nuid, n->name);
 					else if (st->id > 0 && st->id < 2048) {
 						if (!first_nuid[st->id]) first_nuid[st->id] = (int)n->nuid;
 						else if (first_nuid[st->id] != (int)n->nuid)
-							vf_fail("model:C13:R1:nuid-unstable", "station '%s' announced with nuid %u, earlier %d", st->name, n->nuid, first_nuid[st->id]);
+							viol("model:C13:R1:nuid-unstable", "station '%s' announced with nuid %u, earlier %d", st->name, n->nuid, first_nuid[st->id]);
 					}
 				} else if (n->nuid != 0 || n->name[0]) {
 					/* the announcing CNI is not in the table: no station, or the station that
@@ -487,12 +519,12 @@ static void rules_R1_R2_R3(void)
 						if (o2 && n->nuid != 0 && !strncmp((const char *)n->name, o2->name, 60)) okc = 1;
 					}
 					if (!okc)
-						vf_fail("model:C13:R1:unknown-station-named", "%s event during %s (CNI not in the table) carries nuid=%u name='%s'; event cni_vps=%04x cni_8301=%04x cni_8302=%04x",
+						viol("model:C13:R1:unknown-station-named", "%s event during %s (CNI not in the table) carries nuid=%u name='%s'; event cni_vps=%04x cni_8301=%04x cni_8302=%04x",
 							tn, rx_str(v->rx), n->nuid, n->name, n->cni_vps, n->cni_8301, n->cni_8302);
 				}
 			} else {        /* XDS name */
 				if (strcmp((const char *)n->name, x->str))
-					vf_fail("model:C13:R1:xds-name-differs", "%s event during %s carries name '%s'", tn, rx_str(v->rx), n->name);
+					viol("model:C13:R1:xds-name-differs", "%s event during %s carries name '%s'", tn, rx_str(v->rx), n->name);
 				/* call letters: those last received twice in a row (none: empty); the ones received
 				 * last are the transmitted value too, but announcing them is R2's business */
 				if (!strcmp((const char *)n->call, conf_call) && (conf_call[0] || call_zeroed)) ;
@@ -500,22 +532,22 @@ static void rules_R1_R2_R3(void)
 				else if (n->call[0] && !strcmp((const char *)n->call, last_call)) {
 					int q;
 					for (q = v->rx; q >= 0; q--) if (rxs[q].carrier == CR_XCALL) break;
-					vf_fail("model:C13:R2:xds:call-letters-announced-without-repeat", "%s event during %s announces call letters '%s' received once: %s", tn, rx_str(v->rx), n->call, q >= 0 ? carrier_tail(q) : "-");
+					viol("model:C13:R2:xds:call-letters-announced-without-repeat", "%s event during %s announces call letters '%s' received once: %s", tn, rx_str(v->rx), n->call, q >= 0 ? carrier_tail(q) : "-");
 				} else
-					vf_fail("model:C13:R1:xds-call-differs", "%s event during %s carries call letters '%s', last transmitted '%s', last transmitted twice in a row '%s'", tn, rx_str(v->rx), n->call, last_call, conf_call);
+					viol("model:C13:R1:xds-call-differs", "%s event during %s carries call letters '%s', last transmitted '%s', last transmitted twice in a row '%s'", tn, rx_str(v->rx), n->call, last_call, conf_call);
 				if (n->nuid == 0)
-					vf_fail("model:C13:R1:xds-nuid-zero", "%s event during %s carries nuid 0", tn, rx_str(v->rx));
+					viol("model:C13:R1:xds-nuid-zero", "%s event during %s carries nuid 0", tn, rx_str(v->rx));
 			}
 			/* R2: received before, unchanged */
 			{
 				int p1 = prev_on_carrier(v->rx), p2 = p1 >= 0 ? prev_on_carrier(p1) : -1;
 				int ok = (p1 >= 0 && same_value(&rxs[p1], x)) || (p2 >= 0 && same_value(&rxs[p2], x));
 				if (!ok)
-					vf_fail(dkey(x->cni == 0 && x->carrier <= CR_8302 ? "model:C13:R2:zero-cni-announced-on-first-reception" : "model:C13:R2:announced-without-repeat"),
+					viol(dkey(x->cni == 0 && x->carrier <= CR_8302 ? "model:C13:R2:zero-cni-announced-on-first-reception" : "model:C13:R2:announced-without-repeat"),
 						"%s event (nuid %u) raised by %s which was not preceded by the same value on that carrier: %s",
 						tn, n->nuid, rx_str(v->rx), carrier_tail(v->rx));
 			}
-			vf_sig("%s by=%s pattern=%02x between=%02x dom=%s", tn, cr_name[x->carrier], sig_pattern(v->rx), between_mask(v->rx) & 0x3f, dom_name[domain]);
+			SIG("%s by=%s pattern=%02x between=%02x dom=%s", tn, cr_name[x->carrier], sig_pattern(v->rx), between_mask(v->rx) & 0x3f, dom_name[domain]);
 			/* R3: the same announcement is not made again while the same values keep arriving: between
 			 * two identical events of one type some reception must have been the first or the second
 			 * (confirming) one of a run on its carrier */
@@ -527,7 +559,7 @@ static void rules_R1_R2_R3(void)
 					for (i = evs[e2].rx + 1; i <= v->rx; i++)
 						if (rxs[i].carrier != CR_WSS && input_change(i)) changed = 1;
 					if (!changed)
-						vf_fail(dkey(v->type == VBI_EVENT_NETWORK ? "model:C13:R3:network-repeated" : "model:C13:R3:network-id-repeated"),
+						viol(dkey(v->type == VBI_EVENT_NETWORK ? "model:C13:R3:network-repeated" : "model:C13:R3:network-id-repeated"),
 							"%s (nuid %u vps=%03x 8301=%04x 8302=%04x name='%s' call='%s') raised again by %s although every reception since the same announcement (by %s) repeated its carrier's value",
 							tn, n->nuid, n->cni_vps, n->cni_8301, n->cni_8302, n->name, n->call, rx_str(v->rx), rx_str(evs[e2].rx));
 				}
@@ -536,56 +568,56 @@ static void rules_R1_R2_R3(void)
 		}
 		case VBI_EVENT_PROG_ID: {
 			const vbi_program_id *p = &v->pid;
-			vf_count(p->channel == VBI_PID_CHANNEL_VPS ? "ev_prog_id_vps" : "ev_prog_id_8302", 1);
+			COUNT(p->channel == VBI_PID_CHANNEL_VPS ? "ev_prog_id_vps" : "ev_prog_id_8302", 1);
 			if (p->channel == VBI_PID_CHANNEL_VPS) {
 				int j, seen = 0;
-				if (x->carrier != CR_VPS) { vf_fail("model:C13:R1:prog-id-from-unrelated-carrier", "VPS PROG_ID during %s", rx_str(v->rx)); break; }
+				if (x->carrier != CR_VPS) { viol("model:C13:R1:prog-id-from-unrelated-carrier", "VPS PROG_ID during %s", rx_str(v->rx)); break; }
 				if (p->cni != x->cni || p->pil != x->pil || (int)p->pcs_audio != x->pcs || (int)p->pty != x->pty || p->cni_type != VBI_CNI_TYPE_VPS)
-					vf_fail("model:C13:R1:vps-prog-id-differs", "PROG_ID cni=%x pil=%05x pcs=%d pty=%02x, transmitted cni=%x pil=%05x pcs=%d pty=%02x",
+					viol("model:C13:R1:vps-prog-id-differs", "PROG_ID cni=%x pil=%05x pcs=%d pty=%02x, transmitted cni=%x pil=%05x pcs=%d pty=%02x",
 						p->cni, p->pil, (int)p->pcs_audio, p->pty, x->cni, x->pil, x->pcs, x->pty);
 				for (j = 0; j < v->rx; j++) if (rxs[j].carrier == CR_VPS && same_pid(&rxs[j], x)) seen = 1;
 				if (!seen)
-					vf_fail("model:C13:R2:vps-pid-announced-on-first-reception", "PROG_ID pil=%05x pcs=%d pty=%02x announced by %s, never received before", x->pil, x->pcs, x->pty, rx_str(v->rx));
-				vf_sig("PROG_ID by=VPS pattern=%02x between=%02x", sig_pattern(v->rx), between_mask(v->rx) & 0x3f);
+					viol("model:C13:R2:vps-pid-announced-on-first-reception", "PROG_ID pil=%05x pcs=%d pty=%02x announced by %s, never received before", x->pil, x->pcs, x->pty, rx_str(v->rx));
+				SIG("PROG_ID by=VPS pattern=%02x between=%02x", sig_pattern(v->rx), between_mask(v->rx) & 0x3f);
 			} else {
-				if (x->carrier != CR_8302) { vf_fail("model:C13:R1:prog-id-from-unrelated-carrier", "8/30-2 PROG_ID during %s", rx_str(v->rx)); break; }
+				if (x->carrier != CR_8302) { viol("model:C13:R1:prog-id-from-unrelated-carrier", "8/30-2 PROG_ID during %s", rx_str(v->rx)); break; }
 				if ((int)p->channel != VBI_PID_CHANNEL_LCI_0 + x->lci || p->cni != x->cni || p->pil != x->pil || !!p->luf != x->luf || !!p->mi != x->mi
 				    || !!p->prf != x->prf || (int)p->pcs_audio != x->pcs || (int)p->pty != x->pty || p->cni_type != VBI_CNI_TYPE_8302)
-					vf_fail("model:C13:R1:8302-prog-id-differs", "PROG_ID lci=%d cni=%x pil=%05x luf=%d mi=%d prf=%d pcs=%d pty=%02x, transmitted lci=%d cni=%x pil=%05x luf=%d mi=%d prf=%d pcs=%d pty=%02x",
+					viol("model:C13:R1:8302-prog-id-differs", "PROG_ID lci=%d cni=%x pil=%05x luf=%d mi=%d prf=%d pcs=%d pty=%02x, transmitted lci=%d cni=%x pil=%05x luf=%d mi=%d prf=%d pcs=%d pty=%02x",
 						(int)p->channel, p->cni, p->pil, p->luf, p->mi, p->prf, (int)p->pcs_audio, p->pty, x->lci, x->cni, x->pil, x->luf, x->mi, x->prf, x->pcs, x->pty);
-				vf_sig("PROG_ID by=8/30-2 lci=%d flags=%d", x->lci, x->luf * 4 + x->mi * 2 + x->prf);
+				SIG("PROG_ID by=8/30-2 lci=%d flags=%d", x->lci, x->luf * 4 + x->mi * 2 + x->prf);
 			}
 			break;
 		}
 		case VBI_EVENT_LOCAL_TIME: {
 			long long want = ((long long)x->mjd - 40587) * 86400 + x->hh * 3600 + x->mm * 60 + x->ss;
-			vf_count("ev_local_time", 1);
-			if (x->carrier != CR_8301) { vf_fail("model:C13:R1:local-time-from-unrelated-carrier", "LOCAL_TIME during %s", rx_str(v->rx)); break; }
+			COUNT("ev_local_time", 1);
+			if (x->carrier != CR_8301) { viol("model:C13:R1:local-time-from-unrelated-carrier", "LOCAL_TIME during %s", rx_str(v->rx)); break; }
 			if ((long long)v->lt.time != want || v->lt.seconds_east != x->lto * 1800 || !v->lt.seconds_east_valid)
-				vf_fail("model:C13:R1:local-time-differs", "LOCAL_TIME time=%lld seconds_east=%d valid=%d; transmitted MJD %ld %02d:%02d:%02d UTC (= %lld), offset %d half hours",
+				viol("model:C13:R1:local-time-differs", "LOCAL_TIME time=%lld seconds_east=%d valid=%d; transmitted MJD %ld %02d:%02d:%02d UTC (= %lld), offset %d half hours",
 					(long long)v->lt.time, v->lt.seconds_east, v->lt.seconds_east_valid, x->mjd, x->hh, x->mm, x->ss, want, x->lto);
-			vf_sig("LOCAL_TIME lto=%s", x->lto < 0 ? "west" : x->lto > 0 ? "east" : "0");
+			SIG("LOCAL_TIME lto=%s", x->lto < 0 ? "west" : x->lto > 0 ? "east" : "0");
 			break;
 		}
 		case VBI_EVENT_ASPECT: {
 			if (x->carrier != CR_WSS) {
 				/* revocation after a channel switch ("blank events ... revoking a previously sent event") */
-				vf_count("ev_aspect_revoked", 1);
+				COUNT("ev_aspect_revoked", 1);
 				revoked_since_asp = 1;
 				break;
 			}
-			vf_count("ev_aspect", 1);
+			COUNT("ev_aspect", 1);
 			{
 				const char *why = check_aspect(&x->wss, &v->asp);
 				int j = v->rx, k, reps = 0;
 				if (why)
-					vf_fail("model:C13:R1:aspect-differs", "ASPECT first=%d last=%d ratio=%g film=%d subt=%d does not match WSS format %d film=%d subtitles=%d: %s",
+					viol("model:C13:R1:aspect-differs", "ASPECT first=%d last=%d ratio=%g film=%d subt=%d does not match WSS format %d film=%d subtitles=%d: %s",
 						v->asp.first_line, v->asp.last_line, v->asp.ratio, v->asp.film_mode, (int)v->asp.open_subtitles, x->wss.format, x->wss.film, x->wss.subt_mode, why);
 				for (k = 0; k < 3; k++) { j = prev_on_carrier(j); if (j < 0 || !same_value(&rxs[j], x)) break; reps++; }
 				if (reps < 3)
-					vf_fail("model:C13:R2:wss-announced-without-repeats", "ASPECT announced by %s after only %d identical repeat(s): %s", rx_str(v->rx), reps, carrier_tail(v->rx));
+					viol("model:C13:R2:wss-announced-without-repeats", "ASPECT announced by %s after only %d identical repeat(s): %s", rx_str(v->rx), reps, carrier_tail(v->rx));
 				if (!wss_parity_ok(x->word))
-					vf_fail("model:C13:R2:wss-bad-parity-announced", "ASPECT announced from WSS word %02x%02x whose group 1 parity is even", x->word[0], x->word[1]);
+					viol("model:C13:R2:wss-bad-parity-announced", "ASPECT announced from WSS word %02x%02x whose group 1 parity is even", x->word[0], x->word[1]);
 				if (last_asp_ev >= 0 && !revoked_since_asp && 0 == memcmp(&evs[last_asp_ev].asp, &v->asp, sizeof v->asp)) {
 					int changed = 0;
 					for (i = evs[last_asp_ev].rx + 1; i <= v->rx; i++) {
@@ -593,16 +625,16 @@ static void rules_R1_R2_R3(void)
 						if (rxs[i].carrier == CR_WSS && p >= 0 && !same_value(&rxs[p], &rxs[i])) changed = 1;
 					}
 					if (!changed)
-						vf_fail("model:C13:R3:aspect-repeated", "identical ASPECT raised again by %s while the same WSS word kept arriving since %s", rx_str(v->rx), rx_str(evs[last_asp_ev].rx));
+						viol("model:C13:R3:aspect-repeated", "identical ASPECT raised again by %s while the same WSS word kept arriving since %s", rx_str(v->rx), rx_str(evs[last_asp_ev].rx));
 				}
 				last_asp_ev = e; revoked_since_asp = 0;
-				vf_sig("ASPECT fmt=%d film=%d subt=%d pattern=%02x", x->wss.format, x->wss.film, x->wss.subt_mode, sig_pattern(v->rx));
+				SIG("ASPECT fmt=%d film=%d subt=%d pattern=%02x", x->wss.format, x->wss.film, x->wss.subt_mode, sig_pattern(v->rx));
 			}
 			break;
 		}
 		}
 	}
-	if (ev_overflow) vf_fail("harness:C13:event-log-overflow", "more than %d events", MAXEV);
+	if (ev_overflow && !eval_only) vf_fail("harness:C13:event-log-overflow", "more than %d events", MAXEV);
 }
 
 static int count_network_events(int rx_from, int rx_to, int *first_rx)
@@ -700,11 +732,289 @@ static int count_network_changes(int rx_from, int rx_to, int *first_rx)
  * steady part of each phase. */
 struct twin { int quiet[8]; };
 
+/* One phase of a 625 line history: receptions [start, settled) let the station settle, then the probe page is
+ * sent, [settled, end) is the steady part with the single deviations. */
+struct phase_rec {
+	int start, settled, end, changed_station, now_known, probe, probe_before, nact;
+	int old_probe_cached_after_settle, probe_cached_at_end;         /* observations */
+};
+static struct phase_rec ph[8];
+static int nphase;
+
+/* R4 / R5 over the phases of the history, looking at the log in evs[] and the observations in ph[] */
+static void judge_phases(const struct twin *tw)
+{
+	int phase;
+	for (phase = 0; phase < nphase; phase++) {
+		int first = -1;
+		int n_after = count_network_events(ph[phase].settled, ph[phase].end, &first);
+		int ndev = count_deviants(ph[phase].settled, ph[phase].end);
+		int nact = ph[phase].nact;
+		viol_phase = phase;
+		if (domain == D_DISAGREE) {
+			/* The statement does not say which station is "the identified" one while the carriers
+			 * disagree, so NETWORK events as such are not judged here.  What it does say is that
+			 * single deviations cause neither a network change nor a cleared cache: judged against
+			 * the twin history, which differs in nothing but the single deviations. */
+			if (!tw || !tw->quiet[phase] || !ndev) {
+				COUNT("steady_windows_unjudged", 1);
+			} else {
+				int n_chg = count_network_changes(ph[phase].settled, ph[phase].end, &first);
+				if (n_chg > 0)
+					viol(dkey("model:C13:R4:network-event-after-single-deviation"),
+						"%d NETWORK event(s) changing or revoking the identification in the steady part of phase %d (receptions %d..%d, %d single deviations, no station change), first raised by %s; carrier history: %s; the same history without the single deviations raises no NETWORK event there and keeps the probe page; %s",
+						n_chg, phase, ph[phase].settled, ph[phase].end - 1, ndev, rx_str(first), carrier_tail(first), desc);
+				if (!ph[phase].probe_cached_at_end)
+					viol(dkey("model:C13:R4:cache-cleared-after-single-deviation"),
+						"probe page %x cached after the station had settled is gone at the end of phase %d (receptions %d..%d, %d single deviations, no station change); the same history without the single deviations keeps it; %s",
+						ph[phase].probe, phase, ph[phase].settled, ph[phase].end - 1, ndev, desc);
+				COUNT("steady_windows_judged_against_twin", 1);
+				COUNT("single_deviations", ndev);
+				SIG("R4 dom=%s ndev=%d carriers=%d", dom_name[domain], ndev > 3 ? 3 : ndev, nact);
+			}
+			if (phase > 0 && ph[phase].changed_station) COUNT("station_changes_unjudged", 1);
+			continue;
+		}
+		if (n_after > 0) {
+			viol(dkey(ndev ? "model:C13:R4:network-event-after-single-deviation" : "model:C13:network-event-without-change"), "%d NETWORK event(s) in the steady part of phase %d (receptions %d..%d, %d single deviations, no station change), first raised by %s; carrier history: %s; %s",
+				n_after, phase, ph[phase].settled, ph[phase].end - 1, ndev, rx_str(first), carrier_tail(first), desc);
+		}
+		if (!ph[phase].probe_cached_at_end) {
+			viol(dkey(ndev ? "model:C13:R4:cache-cleared-after-single-deviation" : "model:C13:cache-cleared-without-change"), "probe page %x cached after the station had settled is gone at the end of phase %d (receptions %d..%d, %d single deviations, no station change); %s",
+				ph[phase].probe, phase, ph[phase].settled, ph[phase].end - 1, ndev, desc);
+		}
+		COUNT("steady_windows", 1);
+		COUNT("single_deviations", ndev);
+		if (ndev) SIG("R4 dom=%s ndev=%d carriers=%d", dom_name[domain], ndev > 3 ? 3 : ndev, nact);
+		if (phase > 0 && ph[phase].changed_station && ph[phase].now_known) {
+			int n_change = count_network_events(ph[phase].start, ph[phase].settled, NULL);
+			COUNT("station_changes_known_to_known", 1);
+			if (n_change != 1)
+				viol(dkey("model:C13:R5:network-events-on-change"), "%d NETWORK events while the station changed to another known station (phase %d, receptions %d..%d), exactly one expected; %s",
+					n_change, phase, ph[phase].start, ph[phase].settled - 1, desc);
+			if (ph[phase].old_probe_cached_after_settle)
+				viol(dkey("model:C13:R5:old-pages-kept"), "probe page %x of the previous station is still cached after the change to another known station (phase %d); %s", ph[phase].probe_before, phase, desc);
+			SIG("R5 dom=%s carriers=%d", dom_name[domain], nact);
+		} else if (phase > 0 && ph[phase].changed_station) {
+			COUNT("station_changes_unjudged", 1);
+		}
+	}
+	viol_phase = -1;
+}
+
+/* ---------------- reference model of the station identification, with named deviations ----------------
+ *
+ * Used for one thing only: to tell whether a violation found by the rules is one of the recorded deviations
+ * of the library (known-findings.json) and nothing else (DESIGN.md section 2 item 5).  A violation is
+ * reported under a deviation's key only if
+ *   (a) the library's NETWORK / NETWORK_ID events and the probe observations of this history (and the
+ *       outcome of its twin) are exactly those of the model with all recorded deviations switched on,
+ *   (b) the rules find the same violation in that model's log, and
+ *   (c) they no longer find it when this one deviation is switched off.
+ * Everything else keeps its plain key.
+ *
+ * The strict model is the debounce the statement describes:
+ *   - every kind of CNI (VPS, 8/30-1, 8/30-2) has its own repeat counter; a CNI counts when it has been
+ *     received twice in a row, once per run; zero is no CNI
+ *   - a confirmed CNI which names another station of the table changes the network: one NETWORK event,
+ *     cache cleared; the CNIs remembered for the other carriers belong to the old network and are forgotten
+ *   - a confirmed CNI which is not in the table revokes the identification only if the network was
+ *     identified through this very kind of CNI; what the other carriers sent meanwhile is kept
+ * Recorded deviations of the library:
+ *   Q_STALE    the CNIs remembered for the other carriers survive a change of network, so that a carrier
+ *              which was silent on station B still "repeats" A's CNI when the viewer zaps back to A
+ *   Q_UNKNOWN  a confirmed CNI which is not in the table revokes an identification made through another
+ *              kind of CNI (station_lookup() == 0 != nuid -> vbi_chsw_reset(vbi, 0))
+ *   Q_SHARED   one repeat counter (vbi_network.cycle) for the three kinds of CNI: whichever carrier repeats
+ *              its stored value first after any change does the announcing; a revocation forgets all CNIs
+ */
+enum { Q_STALE = 1, Q_UNKNOWN = 2, Q_SHARED = 4, Q_ALL = 7 };
+static const int quirk_bit[3] = { Q_STALE, Q_UNKNOWN, Q_SHARED };
+static const char *const quirk_key[3] = {
+	"model:C13:Q-stale-cni-of-silent-carrier",
+	"model:C13:Q-unknown-cni-revokes-identification",
+	"model:C13:Q-shared-repeat-counter",
+};
+
+struct mstate { unsigned stored[3]; int cyc[3], cycle; unsigned nuid; int src; char name[64]; };
+static int m_reset[MAXEV], m_nreset;    /* receptions during which the model clears the cache */
+
+static void m_emit(struct evrec *log, int *n, int rx, int type, const struct mstate *m)
+{
+	struct evrec *e;
+	if (*n >= MAXEV) return;
+	e = &log[(*n)++];
+	memset(e, 0, sizeof *e);
+	e->rx = rx; e->type = type;
+	e->net.nuid = m->nuid;
+	e->net.cni_vps = (int)m->stored[0]; e->net.cni_8301 = (int)m->stored[1]; e->net.cni_8302 = (int)m->stored[2];
+	snprintf((char *)e->net.name, sizeof e->net.name, "%s", m->name);
+}
+
+/* clean: the twin history (single deviations left out).  Returns the number of events written to log. */
+static int model_run(int quirks, int clean, struct evrec *log)
+{
+	struct mstate m;
+	int i, n = 0;
+	memset(&m, 0, sizeof m); m.src = -1; m_nreset = 0;
+	for (i = 0; i < n_rx; i++) {
+		int c = rxs[i].carrier, *cy;
+		const struct vbi_cni_entry *e;
+		unsigned v, id;
+		if (c > CR_8302) continue;
+		v = clean ? rxs[i].clean_cni : rxs[i].cni;
+		cy = (quirks & Q_SHARED) ? &m.cycle : &m.cyc[c];
+		if (v != m.stored[c]) { m.stored[c] = v; *cy = 1; continue; }
+		if (*cy != 1 || v == 0) continue;
+		e = ref_lookup(c, v);
+		id = e ? (unsigned)e->id : 0;
+		if (!(quirks & Q_UNKNOWN) && !id && m.nuid && m.src != c) id = m.nuid;      /* says nothing about the network */
+		else if (!id) m.name[0] = 0;
+		else snprintf(m.name, sizeof m.name, "%.62s", e->name);
+		if (id != m.nuid) {
+			if (m.nuid) {
+				if (m_nreset < MAXEV) m_reset[m_nreset++] = i;
+				if (!id) {
+					struct mstate keep = m;
+					memset(&m, 0, sizeof m); m.src = -1;
+					m_emit(log, &n, i, VBI_EVENT_NETWORK, &m);      /* the revocation: a blank event */
+					if (!(quirks & Q_SHARED)) { memcpy(m.stored, keep.stored, sizeof m.stored); memcpy(m.cyc, keep.cyc, sizeof m.cyc); }
+				} else if (!(quirks & Q_STALE)) {
+					int k;
+					for (k = 0; k < 3; k++) if (k != c) { m.stored[k] = 0; m.cyc[k] = 0; }
+				}
+			}
+			m.nuid = id; m.src = c;
+			m_emit(log, &n, i, VBI_EVENT_NETWORK, &m);
+		}
+		m_emit(log, &n, i, VBI_EVENT_NETWORK_ID, &m);
+		*cy = 2;
+	}
+	return n;
+}
+
+/* the probe observations the model's cache clears amount to */
+static void model_observe(struct phase_rec *p)
+{
+	int k, j;
+	for (k = 0; k < nphase; k++) {
+		p[k].probe_cached_at_end = 1;
+		p[k].old_probe_cached_after_settle = 0;
+		for (j = 0; j < m_nreset; j++) if (m_reset[j] >= p[k].settled && m_reset[j] < p[k].end) p[k].probe_cached_at_end = 0;
+		if (k > 0 && p[k].changed_station && p[k].probe_before) {
+			p[k].old_probe_cached_after_settle = 1;
+			for (j = 0; j < m_nreset; j++) if (m_reset[j] >= p[k - 1].settled && m_reset[j] < p[k].settled) p[k].old_probe_cached_after_settle = 0;
+		}
+	}
+}
+
+static int same_network_logs(const struct evrec *a, int na, const struct evrec *b, int nb)
+{
+	int i = 0, j = 0;
+	for (;;) {
+		while (i < na && a[i].type != VBI_EVENT_NETWORK && a[i].type != VBI_EVENT_NETWORK_ID) i++;
+		while (j < nb && b[j].type != VBI_EVENT_NETWORK && b[j].type != VBI_EVENT_NETWORK_ID) j++;
+		if (i >= na || j >= nb) return i >= na && j >= nb;
+		if (a[i].rx != b[j].rx || a[i].type != b[j].type || a[i].net.nuid != b[j].net.nuid || a[i].net.cni_vps != b[j].net.cni_vps
+		    || a[i].net.cni_8301 != b[j].net.cni_8301 || a[i].net.cni_8302 != b[j].net.cni_8302
+		    || strncmp((const char *)a[i].net.name, (const char *)b[j].net.name, 60) || a[i].net.call[0]) return 0;
+		i++; j++;
+	}
+}
+
+/* the rules applied to the model with the given deviations; result in vlist[] */
+static void evaluate_model(int quirks, int with_twin)
+{
+	struct twin tw_m;
+	int k;
+	memset(&tw_m, 0, sizeof tw_m);
+	evs = evs_ref;
+	if (with_twin) {
+		n_ev = model_run(quirks, 1, evs_ref);
+		model_observe(ph);
+		for (k = 0; k < nphase; k++) tw_m.quiet[k] = count_network_events(ph[k].settled, ph[k].end, NULL) == 0 && ph[k].probe_cached_at_end;
+	}
+	n_ev = model_run(quirks, 0, evs_ref);
+	model_observe(ph);
+	eval_only = 1; collecting = 1; n_vlist = 0;
+	rules_R1_R2_R3();
+	judge_phases(with_twin ? &tw_m : NULL);
+	eval_only = 0; collecting = 0;
+}
+
+static int has_viol(const struct vrec *l, int n, const struct vrec *v)
+{
+	int i;
+	for (i = 0; i < n; i++) if (l[i].phase == v->phase && !strcmp(l[i].key, v->key)) return 1;
+	return 0;
+}
+
+/* vlist[] holds the violations found in the library's log: report each under its own key, or under the key
+ * of the recorded deviation that explains it */
+static void attribute(const struct twin *tw_lib)
+{
+	/* the sets of deviations taken out of the model, in the order in which they are tried: each one alone,
+	 * then (for violations which more than one deviation produces independently) two, then all */
+	static const int out_set[7] = { Q_STALE, Q_UNKNOWN, Q_SHARED, Q_STALE | Q_UNKNOWN, Q_STALE | Q_SHARED, Q_UNKNOWN | Q_SHARED, Q_ALL };
+	static const int out_key[7] = { 0, 1, 2, 1, 2, 2, 2 };        /* filed under (index into quirk_key) */
+	static const char *const out_name[7] = { "stale", "unknown", "shared", "stale+unknown", "stale+shared", "unknown+shared", "stale+unknown+shared" };
+	static struct vrec lib_v[MAXVIOL], all_v[MAXVIOL], var_v[7][MAXVIOL];
+	struct phase_rec ph_lib[8];
+	int n_lib = n_vlist, n_all = 0, n_var[7], n_ev_lib = n_ev, explained, q, i, k, nq = 3, pending;
+
+	memcpy(lib_v, vlist, sizeof lib_v);
+	memcpy(ph_lib, ph, sizeof ph_lib);
+
+	/* (a) is the library doing exactly what the model with all recorded deviations does? */
+	evaluate_model(Q_ALL, tw_lib != NULL);
+	explained = same_network_logs(evs_lib, n_ev_lib, evs_ref, n_ev);
+	for (k = 0; k < nphase; k++)
+		if (ph[k].probe_cached_at_end != ph_lib[k].probe_cached_at_end || ph[k].old_probe_cached_after_settle != ph_lib[k].old_probe_cached_after_settle) explained = 0;
+	if (explained && tw_lib) {
+		/* and its twin */
+		n_ev = model_run(Q_ALL, 1, evs_ref);
+		model_observe(ph);
+		for (k = 0; k < nphase; k++)
+			if (tw_lib->quiet[k] != (count_network_events(ph[k].settled, ph[k].end, NULL) == 0 && ph[k].probe_cached_at_end)) explained = 0;
+		evaluate_model(Q_ALL, 1);
+	}
+	if (explained) {
+		memcpy(all_v, vlist, sizeof all_v); n_all = n_vlist;
+		for (q = 0; q < 7; q++) {
+			if (q == 3) {
+				/* anything left that no single deviation explains? */
+				pending = 0;
+				for (i = 0; i < n_lib; i++)
+					if (has_viol(all_v, n_all, &lib_v[i]) && has_viol(var_v[0], n_var[0], &lib_v[i]) && has_viol(var_v[1], n_var[1], &lib_v[i]) && has_viol(var_v[2], n_var[2], &lib_v[i])) pending = 1;
+				if (!pending) break;
+			}
+			evaluate_model(Q_ALL & ~out_set[q], tw_lib != NULL);
+			memcpy(var_v[q], vlist, sizeof var_v[q]); n_var[q] = n_vlist;
+			nq = q + 1;
+		}
+	}
+	evs = evs_lib; n_ev = n_ev_lib;
+	memcpy(ph, ph_lib, sizeof ph_lib);
+	vf_count(explained ? "violating_histories_matching_the_model_of_recorded_deviations" : "violating_histories_not_matching_the_model", 1);
+
+	for (i = 0; i < n_lib; i++) {
+		const struct vrec *v = &lib_v[i];
+		int qs = -1;
+		if (explained && has_viol(all_v, n_all, v))
+			for (q = 0; q < nq && qs < 0; q++) if (!has_viol(var_v[q], n_var[q], v)) qs = q;
+		if (vf_verbose) vf_log("   attribution of %s (phase %d): library matches the model with all recorded deviations=%d, violation in that model=%d, gone without: %s\n", v->key, v->phase, explained,
+			explained && has_viol(all_v, n_all, v), qs >= 0 ? out_name[qs] : "-");
+		if (qs >= 0) vf_fail(quirk_key[out_key[qs]], "%s [gone from the reference model without: %s]: %s", v->key, out_name[qs], v->detail);
+		else vf_fail(v->key, "%s", v->detail);
+	}
+}
+
+
 /* 625 line histories.  twin: leave out the single deviations and record the outcome in *tw;
  * otherwise tw (if not NULL) is the record of the twin that was run before. */
 static int run_hist(struct vf_rng *r, int twin, struct twin *tw)
 {
-	int active[4] = { 0, 0, 0, 0 }, nact = 0, c, i, phase, nphase, ncar;
+	int active[4] = { 0, 0, 0, 0 }, nact = 0, c, i, phase, ncar;
 	const struct station *st = NULL;
 	unsigned val[3] = { 0, 0, 0 };
 	int known[3] = { 0, 0, 0 };
@@ -712,9 +1022,7 @@ static int run_hist(struct vf_rng *r, int twin, struct twin *tw)
 	int cooldown[4] = { 0, 0, 0, 0 };
 	int probe = 0, probe_phase = -1;
 	int o = 0;
-	struct { int start, settled, end, changed_station, prev_known, now_known, probe_before; int old_probe_cached_after_settle, probe_cached_at_end, probe, stale; } ph[8];
 	const struct station *st_prev = NULL;
-	unsigned last_clean[3] = { 0, 0, 0 };
 
 	{
 		unsigned d = vf_below(r, 20);
@@ -732,7 +1040,7 @@ static int run_hist(struct vf_rng *r, int twin, struct twin *tw)
 	desc[0] = 0;
 
 	for (phase = 0; phase < nphase; phase++) {
-		int steady, prev_id = st ? st->id : 0, prev_dom_known = (phase > 0) && ph[phase - 1].now_known;
+		int steady;
 		/* --- choose the station of this phase --- */
 		if (phase == 0 || vf_chance(r, 3, 4)) {
 			const struct station *ns;
@@ -765,16 +1073,11 @@ static int run_hist(struct vf_rng *r, int twin, struct twin *tw)
 			if (!nact) { for (c = 0; c < 3; c++) if (domain == D_UNKNOWN || st->ok[c]) { active[c] = 1; val[c] = domain == D_UNKNOWN ? unknown_cni(r, c) : st->cni[c]; known[c] = domain != D_UNKNOWN; nact = 1; break; } }
 			ph[phase].changed_station = phase > 0;
 		}
-		/* A carrier that was silent during the previous station and now carries what it carried
-		 * before that (zapping A -> B -> A): the decoder still holds A's value.  Own keys. */
-		if (ph[phase].changed_station)
-			for (c = 0; c < 3; c++) if (active[c] && val[c] && last_clean[c] == val[c]) ph[phase].stale = 1;
-		for (c = 0; c < 3; c++) if (active[c]) last_clean[c] = val[c];
 		active[CR_WSS] = vf_chance(r, 1, 2);
 		ncar = nact + active[CR_WSS];
 		ph[phase].start = n_rx;
-		ph[phase].prev_known = prev_dom_known && prev_id;
 		ph[phase].now_known = (domain == D_KNOWN || domain == D_PARTIAL);
+		ph[phase].nact = nact;
 		ph[phase].probe_before = probe;
 		o += snprintf(desc + o, sizeof desc - (size_t)o, "[phase %d %s '%s' vps=%s%03x 8301=%s%04x 8302=%s%04x wss=%d] ", phase, dom_name[domain], domain == D_UNKNOWN ? "?" : st->name,
 			active[0] ? "" : "-", val[0], active[1] ? "" : "-", val[1], active[2] ? "" : "-", val[2], active[3]);
@@ -790,7 +1093,7 @@ static int run_hist(struct vf_rng *r, int twin, struct twin *tw)
 				x = add_rx(c); if (!x) break;
 				need[c]--; left--;
 				x->phase = phase;
-				if (c <= CR_8302) { x->cni = val[c]; x->station = known[c] ? st->id : 0; }
+				if (c <= CR_8302) { x->cni = x->clean_cni = val[c]; x->station = known[c] ? st->id : 0; }
 				else { x->wss = wss; tx_wss(x->word, &wss); }
 				fill_common(x, &pg, &ck);
 				transmit(r, n_rx - 1);
@@ -812,7 +1115,7 @@ static int run_hist(struct vf_rng *r, int twin, struct twin *tw)
 			x->phase = phase;
 			if (cooldown[c] > 0) cooldown[c]--;
 			if (c <= CR_8302) {
-				x->cni = val[c]; x->station = known[c] ? st->id : 0;
+				x->cni = x->clean_cni = val[c]; x->station = known[c] ? st->id : 0;
 				if (!cooldown[c] && vf_chance(r, 1, 7)) {
 					/* the single deviating word: another station, noise, one bit, zero */
 					unsigned d;
@@ -853,71 +1156,21 @@ static int run_hist(struct vf_rng *r, int twin, struct twin *tw)
 	(void)probe_phase;
 	idle_frames(3);
 
-	if (!twin) vf_sample("%s", desc);
-	rules_R1_R2_R3();
-
-	/* R4 / R5 over the phases */
-	for (phase = 0; phase < nphase; phase++) {
-		int first = -1;
-		int n_after = count_network_events(ph[phase].settled, ph[phase].end, &first);
-		int ndev = count_deviants(ph[phase].settled, ph[phase].end);
-		int stale = 0, q;
-		/* once the decoder may have missed a station change (below), what it does later in the history
-		 * follows from that: this phase and all later ones are judged under that key */
-		for (q = 0; q <= phase; q++) if (ph[q].stale) stale = 1;
-		if (twin) {
-			tw->quiet[phase] = n_after == 0 && ph[phase].probe_cached_at_end;
-			continue;
-		}
-		if (domain == D_DISAGREE) {
-			/* The statement does not say which station is "the identified" one while the carriers
-			 * disagree, so NETWORK events as such are not judged here.  What it does say is that
-			 * single deviations cause neither a network change nor a cleared cache: judged against
-			 * the twin history, which differs in nothing but the single deviations. */
-			if (!tw || !tw->quiet[phase] || !ndev) {
-				vf_count("steady_windows_unjudged", 1);
-			} else {
-				int n_chg = count_network_changes(ph[phase].settled, ph[phase].end, &first);
-				if (n_chg > 0)
-					vf_fail(stale ? "model:C13:R4:network-event-after-single-deviation:stale-cni-of-silent-carrier" : dkey("model:C13:R4:network-event-after-single-deviation"),
-						"%d NETWORK event(s) changing or revoking the identification in the steady part of phase %d (receptions %d..%d, %d single deviations, no station change), first raised by %s; carrier history: %s; the same history without the single deviations raises no NETWORK event there and keeps the probe page; %s",
-						n_chg, phase, ph[phase].settled, ph[phase].end - 1, ndev, rx_str(first), carrier_tail(first), desc);
-				if (!ph[phase].probe_cached_at_end)
-					vf_fail(stale ? "model:C13:R4:cache-cleared-after-single-deviation:stale-cni-of-silent-carrier" : dkey("model:C13:R4:cache-cleared-after-single-deviation"),
-						"probe page %x cached after the station had settled is gone at the end of phase %d (receptions %d..%d, %d single deviations, no station change); the same history without the single deviations keeps it; %s",
-						ph[phase].probe, phase, ph[phase].settled, ph[phase].end - 1, ndev, desc);
-				vf_count("steady_windows_judged_against_twin", 1);
-				vf_count("single_deviations", ndev);
-				vf_sig("R4 dom=%s ndev=%d carriers=%d", dom_name[domain], ndev > 3 ? 3 : ndev, nact);
-			}
-			if (phase > 0 && ph[phase].changed_station) vf_count("station_changes_unjudged", 1);
-			continue;
-		}
-		if (n_after > 0) {
-			vf_fail(stale ? "model:C13:R4:network-event-after-single-deviation:stale-cni-of-silent-carrier" : dkey(ndev ? "model:C13:R4:network-event-after-single-deviation" : "model:C13:network-event-without-change"), "%d NETWORK event(s) in the steady part of phase %d (receptions %d..%d, %d single deviations, no station change), first raised by %s; carrier history: %s; %s",
-				n_after, phase, ph[phase].settled, ph[phase].end - 1, ndev, rx_str(first), carrier_tail(first), desc);
-		}
-		if (!ph[phase].probe_cached_at_end) {
-			vf_fail(stale ? "model:C13:R4:cache-cleared-after-single-deviation:stale-cni-of-silent-carrier" : dkey(ndev ? "model:C13:R4:cache-cleared-after-single-deviation" : "model:C13:cache-cleared-without-change"), "probe page %x cached after the station had settled is gone at the end of phase %d (receptions %d..%d, %d single deviations, no station change); %s",
-				ph[phase].probe, phase, ph[phase].settled, ph[phase].end - 1, ndev, desc);
-		}
-		vf_count("steady_windows", 1);
-		vf_count("single_deviations", ndev);
-		if (ndev) vf_sig("R4 dom=%s ndev=%d carriers=%d", dom_name[domain], ndev > 3 ? 3 : ndev, nact);
-		if (phase > 0 && ph[phase].changed_station && (domain == D_KNOWN || domain == D_PARTIAL)) {
-			int n_change = count_network_events(ph[phase].start, ph[phase].settled, NULL);
-			vf_count("station_changes_known_to_known", 1);
-			if (ph[phase].stale) vf_count("station_changes_back_to_stale_cni", 1);
-			if (n_change != 1)
-				vf_fail(stale ? "model:C13:R5:network-events-on-change:stale-cni-of-silent-carrier" : dkey("model:C13:R5:network-events-on-change"), "%d NETWORK events while the station changed to another known station (phase %d, receptions %d..%d), exactly one expected; %s",
-					n_change, phase, ph[phase].start, ph[phase].settled - 1, desc);
-			if (ph[phase].old_probe_cached_after_settle)
-				vf_fail(stale ? "model:C13:R5:old-pages-kept:stale-cni-of-silent-carrier" : dkey("model:C13:R5:old-pages-kept"), "probe page %x of the previous station is still cached after the change to another known station (phase %d); %s", ph[phase].probe_before, phase, desc);
-			vf_sig("R5 dom=%s carriers=%d", dom_name[domain], nact);
-		} else if (phase > 0 && ph[phase].changed_station) {
-			vf_count("station_changes_unjudged", 1);
-		}
+	if (twin) {
+		/* the twin is only there to tell what the single deviations changed */
+		for (phase = 0; phase < nphase; phase++)
+			tw->quiet[phase] = count_network_events(ph[phase].settled, ph[phase].end, NULL) == 0 && ph[phase].probe_cached_at_end;
+		del_decoder();
+		return 0;
 	}
+	vf_sample("%s", desc);
+	/* judge; violations are collected first so that those which are the named, recorded deviations of the
+	 * library and nothing else can be reported under the deviation's own key */
+	collecting = 1; n_vlist = 0;
+	rules_R1_R2_R3();
+	judge_phases(tw);
+	collecting = 0;
+	if (n_vlist) attribute(tw);
 	del_decoder();
 	return n_ev > 0;
 }
